@@ -2144,4 +2144,244 @@ theorem hdrRow_spec (bufSize : Nat) (ind : List Nat) :
     refine ⟨by simp; omega, fun _ => trivial, fun hlt => by omega⟩
 
 
+
+/-! ## highest_density_region: closed form -/
+
+/-- value of the `j`-th highest sample, `data[max_to_min[j]]` -/
+def hdrVal (data : List Rat) (order : List Nat) (j : Nat) : Rat := data.getD (order.getD j 0) 0
+
+/-- level below the selection `max_to_min[:j]`: the next sample when `only_upper_part`, else 0 -/
+def hdrLow (data : List Rat) (order : List Nat) (upper : Bool) (j : Nat) : Rat :=
+  if upper then hdrVal data order j else 0
+
+/-- the values of the selected samples -/
+def hdrTop (data : List Rat) (order : List Nat) (j : Nat) : List Rat := (order.take j).map fun k => data.getD k 0
+
+/-- `fraction_seen` at level `j`: mass of the `j` highest samples above the level, over the total -/
+def hdrSeen (data : List Rat) (order : List Nat) (areaTot : Rat) (upper : Bool) (j : Nat) : Rat :=
+  ((hdrTop data order j).map (· - hdrLow data order upper j)).sum / areaTot
+
+/-- the result row of fraction `f` when it is served at level `j`: the intervals of the selection and the
+interpolated amplitude `(1 - g)·mean(selection) + g·low`, `g = f / fraction_seen` -/
+def hdrRowAt (data : List Rat) (order : List Nat) (areaTot : Rat) (upper : Bool) (bufSize : Nat) (j : Nat) (f : Rat) :
+    List (Int × Int) × Rat :=
+  (hdrRow bufSize (sortNat (order.take j)),
+   (1 - f / hdrSeen data order areaTot upper j) * (hdrTop data order j).sum / (j : Rat)
+     + f / hdrSeen data order areaTot upper j * hdrLow data order upper j)
+
+/-- the row of a fraction that no level reaches: the whole range -/
+def hdrWhole (data : List Rat) (bufSize : Nat) (f : Rat) : List (Int × Int) × Rat :=
+  (((0 : Int), (data.length : Int)) :: List.replicate (bufSize - 1) ((0 : Int), (0 : Int)),
+   (1 - f) * data.sum / (data.length : Rat))
+
+/-- the levels the loop actually looks at, given the last value seen: a step is skipped when its sample
+equals the previous level (`if lowest_sample_seen == data[max_to_min[j]]: continue`) -/
+def levelsFrom (data : List Rat) (order : List Nat) : Option Rat → List Nat → List Nat
+  | _, [] => []
+  | prev, j :: l =>
+    if prev = some (hdrVal data order j) then levelsFrom data order prev l
+    else j :: levelsFrom data order (some (hdrVal data order j)) l
+
+/-- the row of fraction `f` by definition: served at the FIRST level whose mass reaches it -/
+def hdrSpecOver (data : List Rat) (order : List Nat) (areaTot : Rat) (upper : Bool) (bufSize : Nat)
+    (levels : List Nat) (f : Rat) : List (Int × Int) × Rat :=
+  match levels.find? (fun j => decide (f ≤ hdrSeen data order areaTot upper j)) with
+  | some j => hdrRowAt data order areaTot upper bufSize j f
+  | none => hdrWhole data bufSize f
+
+theorem sorted_threshold_split (s : Rat) : ∀ (l : List Rat), l.Pairwise (· ≤ ·) →
+    (∀ f ∈ l.take (l.filter (fun f => decide (f ≤ s))).length, f ≤ s) ∧
+    (∀ f ∈ l.drop (l.filter (fun f => decide (f ≤ s))).length, ¬ f ≤ s) := by
+  intro l
+  induction l with
+  | nil => intro _; simp
+  | cons a l ih =>
+    intro h
+    have hc := List.pairwise_cons.mp h
+    by_cases ha : a ≤ s
+    · obtain ⟨i1, i2⟩ := ih hc.2
+      simp only [List.filter_cons, ha, decide_true, if_true, List.length_cons, List.take_succ_cons, List.drop_succ_cons]
+      refine ⟨?_, i2⟩
+      intro f hf
+      rcases List.mem_cons.mp hf with rfl | hf
+      · exact ha
+      · exact i1 f hf
+    · have hempty : l.filter (fun f => decide (f ≤ s)) = [] := by
+        rw [List.filter_eq_nil_iff]
+        intro f hf
+        simp only [decide_eq_true_eq]
+        intro hfs
+        exact ha (Rat.le_trans (hc.1 f hf) hfs)
+      simp only [List.filter_cons, ha, decide_false, hempty, List.length_nil, List.take_zero, List.drop_zero]
+      refine ⟨by simp, ?_⟩
+      intro f hf
+      rcases List.mem_cons.mp hf with rfl | hf
+      · exact ha
+      · intro hfs; exact ha (Rat.le_trans (hc.1 f hf) hfs)
+
+
+/-- serving one level, for ascending open fractions: exactly the open fractions `≤ fraction_seen` get this
+level's row, the others stay open -/
+theorem hdrServe_spec (bufSize : Nat) (ind : List Nat) (topSum : Rat) (j : Nat) (low fs dj : Rat) (st : HdrState)
+    (G : Rat → List (Int × Int) × Rat) (hs : st.open_.Pairwise (· ≤ ·)) :
+    (hdrServe bufSize ind topSum j low fs dj st).rows.reverse ++ (hdrServe bufSize ind topSum j low fs dj st).open_.map G
+      = st.rows.reverse ++ st.open_.map (fun f =>
+          if f ≤ fs then (hdrRow bufSize ind, (1 - f / fs) * topSum / (j : Rat) + f / fs * low) else G f) ∧
+    (hdrServe bufSize ind topSum j low fs dj st).lowest = some dj ∧
+    (hdrServe bufSize ind topSum j low fs dj st).open_.Pairwise (· ≤ ·) := by
+  obtain ⟨t1, t2⟩ := sorted_threshold_split fs st.open_ hs
+  unfold hdrServe
+  simp only []
+  split
+  · rename_i h0
+    rw [h0] at t2
+    simp only [List.drop_zero] at t2
+    refine ⟨?_, rfl, hs⟩
+    simp only []
+    congr 1
+    apply List.map_congr_left
+    intro f hf
+    simp [t2 f hf]
+  · refine ⟨?_, rfl, hs.sublist (List.drop_sublist _ _)⟩
+    simp only [List.reverse_append, List.reverse_reverse, List.append_assoc]
+    congr 1
+    conv => rhs; rw [← List.take_append_drop (st.open_.filter (fun f => decide (f ≤ fs))).length st.open_]
+    rw [List.map_append]
+    congr 1
+    · apply List.map_congr_left
+      intro f hf
+      simp [t1 f hf]
+    · apply List.map_congr_left
+      intro f hf
+      simp [t2 f hf]
+
+theorem hdrFold_empty (data : List Rat) (order : List Nat) (areaTot : Rat) (upper : Bool) (bufSize : Nat) :
+    ∀ (l : List Nat) (st : HdrState), st.open_ = [] →
+      (l.foldl (hdrStep data order areaTot upper bufSize) st) = st := by
+  intro l
+  induction l with
+  | nil => intro st _; rfl
+  | cons j l ih =>
+    intro st h
+    simp only [List.foldl_cons]
+    have : hdrStep data order areaTot upper bufSize st j = st := by
+      unfold hdrStep; simp [h]
+    rw [this]; exact ih st h
+
+/-- the loop over the levels, for ascending open fractions: every open fraction ends up with the row of the
+first level (among those the loop looks at) whose mass reaches it, or stays open -/
+theorem hdrFold_spec (data : List Rat) (order : List Nat) (areaTot : Rat) (upper : Bool) (bufSize : Nat) :
+    ∀ (l : List Nat) (st : HdrState), st.open_.Pairwise (· ≤ ·) →
+      (l.foldl (hdrStep data order areaTot upper bufSize) st).rows.reverse
+          ++ (l.foldl (hdrStep data order areaTot upper bufSize) st).open_.map (hdrWhole data bufSize)
+        = st.rows.reverse ++ st.open_.map
+            (hdrSpecOver data order areaTot upper bufSize (levelsFrom data order st.lowest l)) := by
+  intro l
+  induction l with
+  | nil =>
+    intro st _
+    simp only [List.foldl_nil, levelsFrom]
+    congr 1
+  | cons j l ih =>
+    intro st hs
+    by_cases he : st.open_ = []
+    · rw [hdrFold_empty data order areaTot upper bufSize (j :: l) st he, he]; simp
+    · simp only [List.foldl_cons]
+      by_cases hl : st.lowest = some (hdrVal data order j)
+      · have hstep : hdrStep data order areaTot upper bufSize st j = st := by
+          unfold hdrStep hdrVal at *; simp [he, hl]
+        rw [hstep, ih st hs]
+        simp only [levelsFrom, hl, if_true]
+      · have hstep : hdrStep data order areaTot upper bufSize st j
+            = hdrServe bufSize (sortNat (order.take j)) (hdrTop data order j).sum j (hdrLow data order upper j)
+                (hdrSeen data order areaTot upper j) (hdrVal data order j) st := by
+          unfold hdrStep hdrVal at *
+          simp only [List.isEmpty_iff, he, if_false, hl]
+          rfl
+        rw [hstep]
+        obtain ⟨s1, s2, s3⟩ := hdrServe_spec bufSize (sortNat (order.take j)) (hdrTop data order j).sum j
+          (hdrLow data order upper j) (hdrSeen data order areaTot upper j) (hdrVal data order j) st
+          (hdrSpecOver data order areaTot upper bufSize (levelsFrom data order (some (hdrVal data order j)) l)) hs
+        rw [ih _ s3, s2, s1]
+        congr 1
+        apply List.map_congr_left
+        intro f _
+        simp only [levelsFrom, hl, if_false, hdrSpecOver, List.find?_cons]
+        by_cases hf : f ≤ hdrSeen data order areaTot upper j
+        · simp [hf, hdrRowAt]
+        · simp [hf]
+
+
+/-- a level boundary in the samples sorted from max to min: the first step, or a sample lower than its predecessor -/
+def isLevel (data : List Rat) (order : List Nat) (j : Nat) : Bool :=
+  decide (j = 1) || decide (hdrVal data order j ≠ hdrVal data order (j - 1))
+
+/-- the levels `highest_density_region` looks at: `1 ≤ j < n` at a level boundary -/
+def hdrLevels (data : List Rat) : List Nat :=
+  ((List.range data.length).drop 1).filter (isLevel data (maxToMin data))
+
+theorem levelsFrom_range' (data : List Rat) (order : List Nat) : ∀ (m a : Nat), 1 ≤ a →
+    levelsFrom data order (some (hdrVal data order (a - 1))) (List.range' a m)
+      = (List.range' a m).filter (fun j => decide (hdrVal data order j ≠ hdrVal data order (j - 1))) := by
+  intro m
+  induction m with
+  | zero => intro a _; simp [levelsFrom]
+  | succ m ih =>
+    intro a ha
+    rw [List.range'_succ]
+    simp only [levelsFrom, List.filter_cons]
+    have e : a + 1 - 1 = a := by omega
+    by_cases h : hdrVal data order a = hdrVal data order (a - 1)
+    · have h' : some (hdrVal data order (a - 1)) = some (hdrVal data order a) := by rw [h]
+      simp only [h', if_true, h, ne_eq, not_true_eq_false, decide_false, Bool.false_eq_true, if_false]
+      have := ih (a + 1) (by omega)
+      rw [e] at this
+      exact this
+    · have h' : ¬ (some (hdrVal data order (a - 1)) = some (hdrVal data order a)) := by
+        intro hh; exact h (Option.some.inj hh).symm
+      simp only [h', if_false, ne_eq, h, not_false_eq_true, decide_true, if_true]
+      have := ih (a + 1) (by omega)
+      rw [e] at this
+      rw [this]
+
+theorem levelsFrom_none (data : List Rat) (order : List Nat) (n : Nat) :
+    levelsFrom data order none ((List.range n).drop 1) = ((List.range n).drop 1).filter (isLevel data order) := by
+  rw [List.range_eq_range', List.drop_range']
+  cases hn : n - 1 with
+  | zero => simp [levelsFrom]
+  | succ m =>
+    simp only [Nat.zero_add]
+    rw [List.range'_succ]
+    simp only [levelsFrom, List.filter_cons, isLevel, decide_true, Bool.true_or, if_true]
+    have : ¬ (none = some (hdrVal data order 1)) := by simp
+    simp only [this, if_false]
+    congr 1
+    have h := levelsFrom_range' data order m 2 (by omega)
+    simp only [show 2 - 1 = 1 by rfl] at h
+    rw [h]
+    apply List.filter_congr
+    intro j hj
+    have := (List.mem_range'_1.mp hj).1
+    have hj1 : ¬ j = 1 := by omega
+    simp [isLevel, hj1]
+
+/-- **closed form of `highest_density_region`** for ascending fractions: per fraction the row of the first level
+boundary whose mass reaches it, the whole range if none does -/
+theorem highestDensityRegion_eq (data fractions : List Rat) (upper : Bool) (bufSize : Nat)
+    (hs : fractions.Pairwise (· ≤ ·)) (hpos : 0 < data.sum) :
+    highestDensityRegion data fractions upper bufSize
+      = .ok (fractions.map (hdrSpecOver data (maxToMin data) data.sum upper bufSize (hdrLevels data))) := by
+  unfold highestDensityRegion
+  simp only []
+  have hn : ¬ data.sum ≤ 0 := Rat.not_le.mpr hpos
+  simp only [hn, if_false]
+  have h := hdrFold_spec data (maxToMin data) data.sum upper bufSize ((List.range data.length).drop 1)
+    { lowest := none, open_ := fractions, rows := [] } hs
+  simp only [List.reverse_nil, List.nil_append] at h
+  rw [levelsFrom_none] at h
+  unfold hdrLevels
+  rw [← h]
+  rfl
+
+
 end Strax.Peaks
